@@ -154,7 +154,7 @@ func TestC19_E2ELatency(t *testing.T) {
 		"handler within 6 link traversals + 20 ms of virtual time after Emit (with a zero-latency network: within 20 ms) - a packet that waited for a heartbeat, a poll timeout or another packet shows as seconds; "+
 		"non-trivial = >= 3 emits over long-polling")
 	rapidGuard(t, "C19", c19eCheck)
-	runRapid(t, c19eCheck, tierN(1600, 40000), func(t *rapid.T) {
+	runRapid(t, c19eCheck, tierN(6000, 60000), func(t *rapid.T) {
 		c := genC19eCase(t)
 		f, nt := evalC19e(c)
 		ev.Case(c, nt, fmt.Sprintf("%s,latency=%d", c.Transport, c.LatencyMs))
